@@ -48,6 +48,12 @@ class Harness:
             class _Logger:
                 def log_lludp_message(self, session, region, message):
                     h.logged.append((message.name, message.packet_id, message.dropped, message.finalized))
+
+                def log_http_response(self, flow):
+                    h.logged.append(("http", flow.request.url))
+
+                def log_eq_event(self, session, region, event):
+                    h.logged.append(("eq", event.get("message")))
             self.session_manager.message_logger = _Logger()
         self.session = self.session_manager.create_session({
             "session_id": UUID.random(), "secure_session_id": UUID.random(), "agent_id": UUID.random(),
